@@ -137,8 +137,14 @@ func (d *Discharger) Run(obls []*Obligation) {
 }
 
 func (d *Discharger) one(o *Obligation) {
-	q := &Query{Name: o.Name, Assumes: o.Assumes, Goal: o.Goal}
 	d.mu.Lock()
+	if ax := boxAxioms(append(append([]*Term{}, o.Assumes...), o.Goal)); len(ax) > 0 {
+		o.Assumes = append(o.Assumes[:len(o.Assumes):len(o.Assumes)], ax...)
+	}
+	if ax := closureAxioms(append(append([]*Term{}, o.Assumes...), o.Goal)); len(ax) > 0 {
+		o.Assumes = append(o.Assumes[:len(o.Assumes):len(o.Assumes)], ax...)
+	}
+	q := &Query{Name: o.Name, Assumes: o.Assumes, Goal: o.Goal}
 	text := q.SMTText(true)
 	var itext string
 	if o.Kind != "cover" {
